@@ -207,6 +207,29 @@ def nesting(rng, maxdepth=8, maxitems=24):
     return "".join(out)
 
 
+def foreign_collide(rng):
+    """Foreign elements whose names collide with HTML table/select/list/formatting names, inside tables, selects, lists."""
+    outer = rng.choice(["<table>", "<table><tbody>", "<table><thead>", "<table><tr>", "<table><tr><td>", "<table><caption>", "<select>", "<ul><li>",
+                        "<p>", "<b>", "<button>", "<table><colgroup>", "<dl><dt>", "<ruby>", "<form>", ""])
+    f = rng.choice(["<svg>", "<math>", "<svg><g>", "<math><mi>", "<svg><foreignObject>", "<math><annotation-xml>", "<svg><desc>"])
+    names = ["table", "tbody", "thead", "tfoot", "tr", "td", "th", "caption", "colgroup", "col", "select", "option", "optgroup", "li", "dd", "dt", "p",
+             "button", "a", "nobr", "form", "html", "body", "head", "frameset", "title", "textarea", "script", "style", "template", "rt", "rp", "object",
+             "applet", "marquee", "input", "br", "hr", "h1", "div", "b", "font", "g", "mi"]
+    out = [outer, f]
+    for _ in range(rng.randint(1, 5)):
+        r = rng.random()
+        n = rng.choice(names)
+        if r < 0.5:
+            out.append("<%s>" % n)
+        elif r < 0.85:
+            out.append("</%s>" % n)
+        else:
+            out.append(rng.choice(["x", " ", "\x00", "<!--c-->"]))
+    for _ in range(rng.randint(0, 3)):
+        out.append("</%s>" % rng.choice(names + ["svg", "math"]))
+    return "".join(out)
+
+
 def random_text(rng, n):
     """Random str over all planes incl. surrogates and markup-significant ASCII."""
     pools = ["<>/=\"'&#;!-?[] \t\n\r\x0c\x00abcxyzABCXYZ0123456789", "éİK�﷐￾ ",
@@ -230,8 +253,10 @@ def random_text(rng, n):
 def mixed(rng, maxtok=30):
     """Default mixed workload: soup / nesting / random text."""
     r = rng.random()
-    if r < 0.55:
+    if r < 0.5:
         return soup(rng, maxtok)
-    if r < 0.9:
+    if r < 0.8:
         return nesting(rng)
+    if r < 0.92:
+        return foreign_collide(rng)
     return random_text(rng, rng.randint(1, 80))
